@@ -52,7 +52,11 @@ TLockFinish == /\ l <= Len(Ev) /\ Cur.a = "L"
                /\ rchain' = Cur.chain /\ ridx' = Cur.idx /\ rlocked' = Cur.locked
                /\ FinderMatches(Cur)
                /\ l' = l + 1 /\ UNCHANGED tid
-TNext == TAddBegin \/ TPop \/ TAddFinish \/ TLockBegin \/ TLockFinish
+TLockNoop == /\ l <= Len(Ev) /\ Cur.a = "L" /\ Cur.exc = 0
+             /\ LockNoop(Cur.arg[1])
+             /\ rchain = Cur.chain /\ ridx = Cur.idx /\ rlocked = Cur.locked
+             /\ l' = l + 1 /\ UNCHANGED tid
+TNext == TAddBegin \/ TPop \/ TAddFinish \/ TLockBegin \/ TLockFinish \/ TLockNoop
 TSpec == TInit /\ [][TNext]_tvars
 
 Reached == IF l = Len(Ev) + 1 THEN TLCSet(1, TLCGet(1) \cup {tid}) ELSE TRUE
